@@ -56,6 +56,7 @@ func runC07(c *Ctx, r *Report) {
 	// of the global number, field triples) and no unit reported written that was skipped
 	c05Headers(c, r)
 	c05NoSilentSkip(c, r)
+	c05OmissionBaseType(c, r)
 	encodeLeavesMessages(c, r, "C07-R6-encode-readonly")
 	c03MessageFlows(c, r) // every decoded record starts from a fresh all-invalid message: no value of an earlier record survives into what is re-encoded
 	roots, missing := c.rootFuncs(encodeRoots)
